@@ -1056,8 +1056,92 @@ def rule_name(repo):
         r.bad(dm, 'Struct.__eq__', norm(eq.body)[:80], "struct equality (the key of the typedef table) must compare the "
               "complete, unhashed names", eq.lineno)
     _placeholder_name(r, repo)
-    r.require_floor(18)
+    _param_flow(r, repo)
+    r.require_floor(20)
     return r
+
+
+def _param_flow(r, repo):
+    """The (args, kwargs) that Component._gen_parameters reads for the module name are the ones construct() is called
+    with: after the parameter-tree merge the keyword dictionary is still `_dsl.kwargs` itself, or is stored back."""
+    tm = repo.mod(RTYPE)
+    gp = tm.get_func('Component._gen_parameters')
+    read = {n.attr for n in ast.walk(gp) if isinstance(n, ast.Attribute) and isinstance(n.value, ast.Attribute)
+            and n.value.attr == '_dsl'}
+    if not {'args', 'kwargs'} <= read:
+        raise AnalysisError("Component._gen_parameters no longer reads _dsl.args / _dsl.kwargs")
+    cm = repo.mod(COMPONENT)
+    f = cm.get_func('Component._construct')
+    me = f.args.args[0].arg
+    calls = [n for n in _own(f) if isinstance(n, ast.Call) and isinstance(n.func, ast.Attribute) and n.func.attr == 'construct'
+             and norm(n.func.value) == me]
+    if len(calls) != 1:
+        raise AnalysisError("Component._construct: expected one call of construct()")
+    call = calls[0]
+    star = [a.value for a in call.args if isinstance(a, ast.Starred)]
+    dstar = [k.value for k in call.keywords if k.arg is None]
+    if len(star) != 1 or len(dstar) != 1 or len(call.args) != 1 or len(call.keywords) != 1:
+        r.bad(cm, 'Component._construct', norm(call), "construct() must be called with exactly the recorded positional and "
+              "keyword arguments (the module name is built from them)", call.lineno)
+        return
+
+    def is_field(e, attr):
+        return isinstance(e, ast.Attribute) and e.attr == attr and isinstance(e.value, ast.Attribute) and \
+            e.value.attr == '_dsl' and norm(e.value.value) == me
+    for expr, attr in ((star[0], 'args'), (dstar[0], 'kwargs')):
+        cons = f"construct() receives _dsl.{attr}"
+        if is_field(expr, attr):
+            r.ok(cm, 'Component._construct', cons)
+            continue
+        if not isinstance(expr, ast.Name):
+            r.bad(cm, 'Component._construct', cons, f"construct() is called with `{norm(expr)}`, not with the recorded "
+                  f"`_dsl.{attr}` the module name is computed from", call.lineno)
+            continue
+        v = expr.id
+        assigns = [n for n in _own(f) if isinstance(n, ast.Assign) and any(isinstance(t, ast.Name) and t.id == v for t in n.targets)]
+        mutated = [n for n in _own(f) if
+                   (isinstance(n, ast.Call) and isinstance(n.func, ast.Attribute) and norm(n.func.value) == v and
+                    n.func.attr in ('update', 'setdefault', 'pop', 'popitem', 'clear', '__setitem__')) or
+                   (isinstance(n, (ast.Assign, ast.AugAssign)) and any(
+                       isinstance(t, ast.Subscript) and norm(t.value) == v
+                       for t in (n.targets if isinstance(n, ast.Assign) else [n.target]))) or
+                   (isinstance(n, ast.AugAssign) and norm(n.target) == v)]
+        backs = [n for n in _own(f) if isinstance(n, ast.Assign) and any(is_field(t, attr) for t in n.targets)
+                 and norm(n.value) == v]
+        if not assigns:
+            raise AnalysisError(f"Component._construct: `{v}` is never assigned")
+        bad = None
+        for a in assigns:
+            if is_field(a.value, attr):
+                continue                       # alias: in-place merges are visible to the name computation
+            pure_copy = isinstance(a.value, ast.Call) and (
+                (isinstance(a.value.func, ast.Attribute) and a.value.func.attr == 'copy' and is_field(a.value.func.value, attr)
+                 and not a.value.args) or
+                (isinstance(a.value.func, ast.Name) and a.value.func.id == 'dict' and len(a.value.args) == 1 and
+                 not a.value.keywords and is_field(a.value.args[0], attr)))
+            if pure_copy and not mutated:
+                continue                       # an unmodified copy has the same content
+            # a separate dictionary that receives the parameter-tree values: must be stored back before construct()
+            blk = None
+            p = parent(a)
+            for fld in ('body', 'orelse', 'finalbody'):
+                b = getattr(p, fld, None)
+                if isinstance(b, list) and any(x is a for x in b):
+                    blk = b
+            later_same_block = [x for x in (blk or []) if x in backs and x.lineno > a.lineno]
+            from sa.astutil import preceding_stmts
+            before_call = [x for x in preceding_stmts(call) if x in backs and x.lineno > a.lineno]
+            if not later_same_block and not before_call:
+                bad = a
+                break
+        if bad is not None:
+            r.bad(cm, 'Component._construct', cons,
+                  f"`{norm(bad)}` makes the dictionary passed to construct() a different object from `_dsl.{attr}`, the merged "
+                  f"set_param values are never stored back, and Component._gen_parameters reads `_dsl.{attr}`: two instances "
+                  f"configured to different values through set_param(\"top.x.construct\", ...) get the same module name with "
+                  f"different bodies (one body is emitted for both)", bad.lineno)
+        else:
+            r.ok(cm, 'Component._construct', cons)
 
 
 VPLACEHOLDER = 'pymtl3/passes/backends/verilog/VerilogPlaceholderPass.py'
@@ -1351,8 +1435,82 @@ def rule_once(repo):
         else:
             r.bad(m, q, desc, "the instantiated module name must be: placeholder top module / explicit name, else "
                   "rtlir_tr_component_unique_name(...) -- the function the definition side uses", host.lineno)
-    r.require_floor(10)
+    _wrapper_guard(r, repo, scope)
+    r.require_floor(11)
     return r
+
+
+def _wrapper_guard(r, repo, scope):
+    """Every emission of a placeholder wrapper is dominated by `wrapper name != wrapped top module -> else raise`,
+    whatever way the wrapper name was chosen: otherwise the output defines the wrapped module's name twice."""
+    impls = [(m, f) for m, f in _methods_named(repo, scope, 'rtlir_tr_placeholder_src')
+             if not (len(f.body) == 1 and isinstance(f.body[0], ast.Raise))]
+    if not impls:
+        raise AnalysisError("anchor vanished: no implementation of rtlir_tr_placeholder_src")
+    for m, f in impls:
+        emis = [n for n in _own(f) if isinstance(n, ast.Call) and isinstance(n.func, ast.Attribute) and n.func.attr == 'format'
+                and any(k.arg == 'top_module_name' for k in n.keywords)]
+        if not emis:
+            raise AnalysisError(f"{m.rel}: the wrapper template is no longer filled with top_module_name=...")
+        for e in emis:
+            name = [k.value for k in e.keywords if k.arg == 'top_module_name'][0]
+            cons = f"wrapper emitted under {_key_desc(name, f) if not isinstance(name, ast.Name) else 'the chosen module name'}"
+            nm = norm(name)
+            relevant = []
+            for g in guards_of(e):
+                if g.kind not in ('if', 'exit', 'assert') or g.test is None:
+                    continue
+                leaves = [x for x in ast.walk(g.test) if isinstance(x, (ast.Name, ast.Attribute))]
+                if any(norm(x) == nm for x in leaves) and any(isinstance(x, ast.Attribute) and x.attr == 'top_module' for x in leaves):
+                    relevant.append(g)
+            reachable_equal = True
+            import itertools
+            for g in relevant:
+                # other atoms of the test (e.g. "an explicit name is set") are unknown: the guard excludes the equal-name
+                # case only if it does so for every valuation of them
+                others = []
+                def collect(x):
+                    if isinstance(x, (ast.BoolOp,)):
+                        for y in x.values:
+                            collect(y)
+                    elif isinstance(x, ast.UnaryOp):
+                        collect(x.operand)
+                    elif isinstance(x, ast.Compare):
+                        for y in [x.left] + list(x.comparators):
+                            collect(y)
+                    elif isinstance(x, ast.Constant):
+                        pass
+                    elif norm(x) != nm and not (isinstance(x, ast.Attribute) and x.attr == 'top_module'):
+                        if norm(x) not in others:
+                            others.append(norm(x))
+                collect(g.test)
+                if len(others) > 5:
+                    raise AnalysisError(f"wrapper-name guard too large: {norm(g.test)[:80]}")
+                excludes = True
+                for vals in itertools.product((False, True), repeat=len(others)):
+                    amap = dict(zip(others, vals))
+
+                    def leaf(x, nm=nm, amap=amap):
+                        t = norm(x)
+                        if t == nm or (isinstance(x, ast.Attribute) and x.attr == 'top_module'):
+                            return 'SAME'
+                        if t in amap:
+                            return amap[t]
+                        return NotImplemented
+                    r.evaluations += 1
+                    if bool(Evaluator({}, arith=False, leaf=leaf).ev(g.test)) == g.polarity:
+                        excludes = False
+                if excludes:
+                    reachable_equal = False
+                    if g.kind == 'exit' and not any(isinstance(x, ast.Raise) for b in g.exit_block for x in ast.walk(b)):
+                        reachable_equal = True      # leaves silently instead of reporting
+            if reachable_equal:
+                r.bad(m, qualname(f), cons,
+                      f"the wrapper is emitted as `module {nm}` on a path where nothing excludes {nm} == <cfg>.top_module "
+                      f"(e.g. explicit_module_name set to the name of the wrapped Verilog module): the output then contains two "
+                      f"different definitions of that module, one instantiating itself", e.lineno)
+            else:
+                r.ok(m, qualname(f), cons)
 
 
 # ---------------------------------------------------------------------------------------------
@@ -1725,6 +1883,23 @@ MUTANTS = [
     _m('placeholder-name-needs-both-param-kinds', VPLACEHOLDER,
        "has_params = bool( irepr.get_params() ) or bool( cfg.params )",
        "has_params = bool( irepr.get_params() ) and bool( cfg.params )", 'R-C13-name'),
+    _m('set-param-values-not-in-the-name', COMPONENT,
+       "      else:\n        kwargs = s._dsl.kwargs\n        if \"construct\" in s._dsl.param_tree.leaf:",
+       "      else:\n        kwargs = s._dsl.kwargs.copy()\n        if \"construct\" in s._dsl.param_tree.leaf:", 'R-C13-name'),
+    _m('set-param-values-merged-into-new-dict', COMPONENT,
+       "          kwargs.update( more_args )\n\n      s._handle_decorated_methods()",
+       "          kwargs = { **kwargs, **more_args }\n\n      s._handle_decorated_methods()", 'R-C13-name'),
+    _m('wrapper-name-guard-only-for-derived-name', VSL1,
+       """          s._mangled_placeholder_top_module_name = module_name
+
+        if module_name == ph_cfg.top_module:
+          raise VerilogPlaceholderError(m,""",
+       """          s._mangled_placeholder_top_module_name = module_name
+
+        if module_name == ph_cfg.top_module and not s.tr_cfgs[m].explicit_module_name:
+          raise VerilogPlaceholderError(m,""", 'R-C13-once'),
+    _m('wrapper-name-guard-removed', VSL1, "        if module_name == ph_cfg.top_module:\n          raise VerilogPlaceholderError(m,",
+       "        if False:\n          raise VerilogPlaceholderError(m,", 'R-C13-once'),
     # --- R-C13-state
     _m('translator-state-initialised-once', VTRANSLATOR,
        "      s._mangled_placeholder_top_module_name = ''\n      s._included_pickled_files = set()\n",
@@ -1798,6 +1973,14 @@ EQUIV = [
     _m('initialise-hook-reordered', VTRANSLATOR,
        "      s._mangled_placeholder_top_module_name = ''\n      s._included_pickled_files = set()\n",
        "      s._included_pickled_files = set()\n      s._mangled_placeholder_top_module_name = ''\n", None),
+    _m('set-param-merge-stored-back', COMPONENT,
+       "        kwargs = s._dsl.kwargs\n        if \"construct\" in s._dsl.param_tree.leaf:\n"
+       "          more_args = s._dsl.param_tree.leaf[ \"construct\" ]\n          kwargs.update( more_args )\n",
+       "        kwargs = dict( s._dsl.kwargs )\n        if \"construct\" in s._dsl.param_tree.leaf:\n"
+       "          more_args = s._dsl.param_tree.leaf[ \"construct\" ]\n          kwargs.update( more_args )\n"
+       "        s._dsl.kwargs = kwargs\n", None),
+    _m('wrapper-name-guard-reversed-operands', VSL1, "        if module_name == ph_cfg.top_module:\n          raise VerilogPlaceholderError(m,",
+       "        if not ( ph_cfg.top_module != module_name ):\n          raise VerilogPlaceholderError(m,", None),
     _m('local-renamed-in-unique-name', VUTIL, "  param_name = param_hash.hexdigest()\n  return comp_name + \"__\" + param_name",
        "  digest = param_hash.hexdigest()\n  return comp_name + \"__\" + digest", None),
 ]
